@@ -210,6 +210,56 @@ impl RotationState {
     }
 }
 
+#[cfg(dswd_vpncloud_verif)]
+pub mod verif {
+    //! Verification hook (read-only state view). Compiled only with --cfg dswd_vpncloud_verif.
+    use super::*;
+
+    #[derive(Clone, Debug, PartialEq, Eq, Hash)]
+    pub struct RotationView {
+        pub confirmed: Option<(Vec<u8>, u64)>,
+        pub pending: Option<(Vec<u8>, Vec<u8>)>,
+        pub proposed: Option<Vec<u8>>,
+        pub message_id: u64,
+        pub timeout: bool,
+    }
+
+    impl RotationState {
+        pub fn verif_state(&self) -> RotationView {
+            RotationView {
+                confirmed: self.confirmed.as_ref().map(|(k, id)| (k.bytes().to_vec(), *id)),
+                pending: self.pending.as_ref().map(|(k, p)| (k.to_vec(), p.bytes().to_vec())),
+                proposed: self.proposed.as_ref().map(|k| Self::compute_public_key(k).bytes().to_vec()),
+                message_id: self.message_id,
+                timeout: self.timeout,
+            }
+        }
+    }
+
+    impl RotationMessage {
+        pub fn verif_message_id(&self) -> u64 {
+            self.message_id
+        }
+
+        pub fn verif_propose(&self) -> &[u8] {
+            self.propose.bytes()
+        }
+
+        pub fn verif_confirm(&self) -> Option<&[u8]> {
+            self.confirm.as_ref().map(|k| k.bytes() as &[u8])
+        }
+
+        pub fn verif_new(message_id: u64, propose: &[u8], confirm: Option<&[u8]>) -> Self {
+            let mk = |b: &[u8]| {
+                let mut v = SmallVec::<[u8; 96]>::new();
+                v.extend_from_slice(b);
+                EcdhPublicKey::new(&X25519, v)
+            };
+            RotationMessage { message_id, propose: mk(propose), confirm: confirm.map(mk) }
+        }
+    }
+}
+
 #[cfg(test)]
 mod tests {
     use super::*;
